@@ -171,6 +171,22 @@ impl VoiceOracle {
         res: &mut RunResult,
     ) {
         let mut next: Vec<SiteModel> = Vec::with_capacity(new.sites.len());
+        // A reorder exchanges two sites: every site between them changes its order relative to
+        // those two siblings, so only sites outside the exchanged interval are "untouched (same
+        // relative order among its siblings)"; and because a move is inherently ambiguous for a
+        // shape-based migration, such a site is judged only if no other site has its shape.
+        let reorder_interval: Option<(usize, usize)> = match &new.edit {
+            Edit::Reorder { a_id, b_id } => {
+                let pa = self.sites.iter().position(|s| s.voice.id == *a_id);
+                let pb = self.sites.iter().position(|s| s.voice.id == *b_id);
+                match (pa, pb) {
+                    (Some(a), Some(b)) => Some((a.min(b), a.max(b))),
+                    // one of the exchanged sites is gone (shrunk scenario): nothing is judged
+                    _ => Some((0, usize::MAX)),
+                }
+            }
+            _ => None,
+        };
         for (j, nv) in new.sites.iter().enumerate() {
             let old_pos = self.sites.iter().position(|s| s.voice.id == nv.id);
             match old_pos {
@@ -179,7 +195,12 @@ impl VoiceOracle {
                         && self.sites[i].voice.n == nv.n
                         && self.sites[i].voice.wrap == nv.wrap =>
                 {
-                    let forced = oracle::forced_pair(old_shapes, new_shapes, i, j);
+                    let mut forced = oracle::forced_pair(old_shapes, new_shapes, i, j);
+                    if let Some((lo, hi)) = reorder_interval {
+                        let unique = old_shapes.iter().filter(|s| **s == old_shapes[i]).count() == 1
+                            && new_shapes.iter().filter(|s| **s == new_shapes[j]).count() == 1;
+                        forced = forced && (i < lo || i > hi) && unique;
+                    }
                     let was_known = self.sites[i].known;
                     if !forced {
                         res.bump("sites_ambiguous_skipped");
@@ -193,8 +214,29 @@ impl VoiceOracle {
                     });
                 }
                 _ => {
-                    let fresh = matches!(new.edit, Edit::Insert { id, .. } if id == nv.id)
+                    let inserted = matches!(new.edit, Edit::Insert { id, .. } if id == nv.id)
                         && oracle::forced_fresh(old_shapes, new_shapes, j);
+                    // A replacing site is new code too. It can only inherit cells from the site
+                    // it replaced (every other old site is matched to itself); if the two shapes
+                    // share no leaf kind at all, no migration can carry anything over, so it
+                    // must start from zero.
+                    let replaced = match &new.edit {
+                        Edit::Replace { old_id, new_id, .. } if *new_id == nv.id => {
+                            match self.sites.iter().position(|s| s.voice.id == *old_id) {
+                                Some(i) => {
+                                    oracle::forced_fresh(old_shapes, new_shapes, j)
+                                        && oracle::leaf_tokens(&old_shapes[i])
+                                            .is_disjoint(&oracle::leaf_tokens(&new_shapes[j]))
+                                }
+                                None => false,
+                            }
+                        }
+                        _ => false,
+                    };
+                    if replaced {
+                        res.bump("sites_replaced_fresh_obligated");
+                    }
+                    let fresh = inserted || replaced;
                     if fresh {
                         res.bump("sites_fresh_obligated");
                     } else {
@@ -340,6 +382,19 @@ pub fn run(sc: &Scenario) -> RunResult {
         h = (h ^ x).wrapping_mul(0x1000_0000_01b3);
     };
     let mut cover: Vec<String> = vec![format!("{}", sc.backend.name())];
+    if !is_c07 {
+        // C06: the program is the other dimension of the space (its shapes decide what a swap must carry)
+        match &sc.versions[0] {
+            Version::Gen(p) => cover.push(
+                p.sites
+                    .iter()
+                    .map(|v| format!("{:?}{}w{}", v.kind, v.n, v.wrap))
+                    .collect::<Vec<_>>()
+                    .join(","),
+            ),
+            Version::Raw { path, .. } => cover.push(path.clone().unwrap_or_default()),
+        }
+    }
     let mut out = Vec::with_capacity(n_out);
     let mut ref_out = Vec::with_capacity(n_out);
     let mut t = 0u64;
@@ -630,13 +685,21 @@ fn gen_saves(rng: &mut Rng, n_versions: usize, total: u64, blocks: &[u32]) -> Ve
 
 pub fn pick_backend(rng: &mut Rng, prop: &str) -> Backend {
     match prop {
-        "C06" => *rng.pick(&[Backend::Vm, Backend::Vm, Backend::WasmP2, Backend::WasmP3, Backend::WasmP3]),
+        "C06" => *rng.pick(&[
+            Backend::Vm,
+            Backend::Vm,
+            Backend::WasmP2,
+            Backend::WasmP3,
+            Backend::WasmP3,
+            Backend::WasmP4,
+        ]),
         _ => *rng.pick(&[
             Backend::Vm,
             Backend::Vm,
             Backend::Vm,
             Backend::WasmP3,
             Backend::WasmP3,
+            Backend::WasmP4,
             Backend::WasmP2,
         ]),
     }
@@ -817,6 +880,8 @@ fn remove_site(sc: &Scenario, id: u32) -> Scenario {
                 Edit::Replace { old_id, new_id, .. }
                 | Edit::Wrap { old_id, new_id, .. }
                 | Edit::Unwrap { old_id, new_id, .. } => *old_id == id || *new_id == id,
+                // a reorder whose exchanged site is removed stays a reorder (nothing inside the
+                // former interval may be judged; see VoiceOracle::swap)
                 _ => false,
             };
             if touches && p.fault.is_none() {
